@@ -44,6 +44,7 @@ RecOf(t) ==
                 ELSE t.origin \in {0, 4, 6, 7} /\ t.itype # -1,   \* a replayed copy carries the peer's own bytes
      free   |-> t.wsec = 0 /\ t.origin \notin {0, 4},
      frag   |-> t.origin \in {1, 2, 7},
+     len    |-> IF t.bytes > 22 THEN t.bytes - 22 ELSE 0,     \* 5 header + 16 tag + 1 inner type
      alvl   |-> IF t.alvl >= 0 THEN t.alvl ELSE 1,
      adesc  |-> IF t.adesc >= 0 THEN t.adesc ELSE 10]
 
@@ -58,6 +59,8 @@ CfgOf(t, s) ==
      early   |-> t.hs = "T13_WAIT_EOED",
      fam     |-> IF t.ver = "T13" THEN "T13" ELSE "L",
      dtls    |-> s.cfg.dtls,
+     eskip   |-> s.role = "S" /\ t.ver = "T13" /\ t.ged = 1 /\ t.se = 0,
+     med     |-> t.med,
      limbo   |-> s.role = "C" /\ t.tick = 4,       \* SESS_TICKET_STATE_IN_LIMBO
      retry   |-> t.hs = s.hs]
 
@@ -68,8 +71,12 @@ ObsDead(t, s) == t.err = 1 \/ t.closed = 1 \/ FatalSealed(t) \/ t.rc = "Error" \
 
 MatchRecv(t, s, r, res) ==
     LET n == res.next IN
-    /\ ~res.loose => Gates(t) = res.gate /\ Accs(t) = res.acc
+    /\ ~res.loose => (Gates(t) = res.gate \/ (res.gateOpt /\ Gates(t) = <<>>)) /\ Accs(t) = res.acc
     \* still waiting for the rest of a record/message: nothing was accepted, reported or changed
+    \* "still waiting" is told apart from "consumed and ignored" by the bytes left in the input buffer
+    \* (an incomplete record stays in the buffer; a complete record with an incomplete message passed the record layer)
+    /\ (res.loose /\ Live(n) /\ ~s.cfg.dtls) => (t.inlen > 0 \/ HasR(t))
+    /\ (~res.loose /\ Live(n)) => t.inlen = 0
     /\ (res.loose /\ Live(n)) => /\ Accs(t) = <<>> /\ Len(t.alin) = 0
                                 /\ (t.rc \in {"RequestRecv", "Success"} \/ (s.cfg.dtls /\ t.rc = "RequestSend"))
                                 /\ (s.cfg.dtls => ((t.rs = 1) = ReadSecure(s)))
@@ -92,7 +99,7 @@ MatchRecv(t, s, r, res) ==
 \* The choice is resolved deterministically from the observation (first matching in a fixed order), so
 \* that every trace line has at most one successor and a rejection is a property of the trace, not of a
 \* branch of the search.
-ChoiceOrder == <<"good", "bad", "rlfail", "part">>
+ChoiceOrder == <<"good", "bad", "rlfail", "skip", "part">>
 
 TDeliver ==
     /\ IsEvent({"deliver"})
@@ -105,7 +112,7 @@ TDeliver ==
            c == CfgOf(t, s)
            Res(ch) == IF Live(s) THEN Recv(s, r, c, ch) ELSE RecvDead(s)
            allowed == IF Live(s) THEN AllowedChoices(s, r) ELSE {"good"}
-           matching == {i \in 1..4 : ChoiceOrder[i] \in allowed /\ MatchRecv(t, s, r, Res(ChoiceOrder[i]))}
+           matching == {i \in 1..5 : ChoiceOrder[i] \in allowed /\ MatchRecv(t, s, r, Res(ChoiceOrder[i]))}
        IN /\ matching # {}
           /\ LET first == CHOOSE i \in matching : \A j \in matching : i <= j
              IN sess' = [sess EXCEPT ![e] = Res(ChoiceOrder[first]).next]
@@ -115,11 +122,11 @@ TSend ==
     /\ Line.ep \in DOMAIN sess
     /\ LET t == Line
            s == sess[t.ep]
-       IN /\ (t.accepted = 1) = (MaySend(s) \/ (t.len = 0 /\ Live(s) /\ ~s.closing /\ FALSE))
+       IN /\ (t.accepted = 1) = MaySend(s, t.ce0 = 1, t.se0 = 1)
           /\ (t.accepted = 0) => Len(Sealed(t, "23")) = 0          \* refused means nothing was encrypted
           /\ (t.accepted = 1 /\ t.len > 0) => Len(Sealed(t, "23")) >= 1
           /\ sess' = [sess EXCEPT ![t.ep] = IF ~Live(s) THEN [s EXCEPT !.postDead = Append(@, "send-refused")]
-                                             ELSE AppSend(s)]
+                                             ELSE AppSend(s, t.ce0 = 1, t.se0 = 1)]
 
 TClose ==
     /\ IsEvent({"close"})
@@ -155,7 +162,8 @@ TAdv ==
     /\ IsEvent({"drop", "dup", "swap", "mod", "trunc", "inject", "injectrec", "forge", "replay",
                 "reflect", "hsedit", "dropall"})
     /\ LET t == Line
-           alters == t.ev \in AltersStream \/ (t.ev = "hsedit" /\ t.op \in {"del", "swap"})
+           \* only handshake messages are transcript
+           alters == (t.ev \in AltersStream /\ t.itype = 22) \/ (t.ev = "hsedit" /\ t.op \in {"del", "swap"})
        IN IF alters /\ t.peer \in DOMAIN sess /\ ~sess[t.peer].cfg.dtls     \* DTLS tolerates loss/duplication/reordering
           THEN sess' = [sess EXCEPT ![t.peer].tampered = @ \/ ~sess[t.peer].done]
           ELSE UNCHANGED sess
